@@ -219,6 +219,8 @@ class Fn:
                                                     # caller omits the argument)
     raises: bool = False                            # exceptions are tracked (`Except Py.Exc R`): `raise`, `try/except`, `with` are translated
     fparams: list = field(default_factory=list)     # lean binders of PURE function parameters (the text level abstracted: `(blank : L → Bool)`)
+    absent: list = field(default_factory=list)      # optional parameters NOT passed in this instantiation (their value is None): the definition is the
+                                                    # specialisation of the function to one of its @overload signatures
     doc: str = ""
     module: str = "AlgoDsu"                         # generated file Gen/<module>.lean (one per group, so that a change to one
                                                     # source file cannot break the generated module of an unrelated property)
@@ -570,6 +572,12 @@ class FnTr:
         s0, c, tc = self.tr(e.test)
         s1, a, ta = self.tr(e.body, want)
         s2, b, tb = self.tr(e.orelse, want)
+        if ta != tb and want is None:
+            # `x if c else None` / `None if c else x` has the type Optional[type(x)]
+            if tb == ("Option", "Unit") and ta != tb:
+                want = ("Option", ta)
+            elif ta == ("Option", "Unit"):
+                want = ("Option", tb)
         if ta != tb and want is not None:
             # `x if c else None`: both branches are values of the optional slot
             a, b, ta = self.coerce(a, ta, want), self.coerce(b, tb, want), want
@@ -604,6 +612,11 @@ class FnTr:
             if isinstance(t, tuple) and t[0] == "List":
                 return s0, f"(Py.len {c})", "Int"
         s1, a, ta = self.tr(e.value)
+        if (isinstance(ta, tuple) and ta[0] == "Option" and isinstance(ta[1], tuple) and ta[1][0] == "Prod"
+                and isinstance(e.slice, ast.Constant) and isinstance(e.slice.value, int)):
+            # `x[k]` on an optional tuple: `None[k]` raises TypeError
+            n0 = self.bindname()
+            s1, a, ta = s1 + [f"Py.bind ({a}) fun {n0} =>"], n0, ta[1]
         if isinstance(e.slice, ast.Tuple) and len(e.slice.elts) == 2:
             x0, x1 = e.slice.elts
             # `a[:, None]`: the 1-d array as a column vector (shape (n, 1)); broadcasting is decided where it is used
@@ -760,11 +773,18 @@ class FnTr:
         args = e.args
         kw = {k.arg: k.value for k in e.keywords}
         # --- `traverse(topology, enter=F, leave=G, root=r)` / `self.traverse(...)` with translated closures as callbacks
-        if f in ("traverse", "self.traverse") and (self.spec.closures or True) and any(k in kw for k in ("enter", "leave")):
+        tree_trav = (isinstance(e.func, ast.Attribute) and e.func.attr == "traverse" and ast.unparse(e.func.value) in self.spec.tree_cols
+                     and {"id", "pid"} <= set(self.spec.tree_cols[ast.unparse(e.func.value)]))
+        if (f in ("traverse", "self.traverse") or tree_trav) and any(k in kw for k in ("enter", "leave")):
             if not self.spec.fuel:
                 raise Untranslatable(f"{self.spec.lean}: traverse needs fuel")
             if f == "traverse":
                 s0, topo, _ = self.tr(args[0])
+            elif tree_trav:
+                # `Tree.traverse`: `traverse((self.id(), self.pid()), enter=wrap(enter), leave=wrap(leave))` where `wrap(fn)` hands `self[idx]` to
+                # `fn` - the node handle whose row index is the id the traversal yields
+                cols = self.spec.tree_cols[ast.unparse(e.func.value)]
+                s0, topo = [], f"(v.{lname(cols['id'])}, v.{lname(cols['pid'])})"
             else:
                 if not self.spec.self_topology:
                     raise Untranslatable(f"{self.spec.lean}: self.traverse without a topology")
@@ -785,11 +805,18 @@ class FnTr:
                     if caps is not None and caps != callee.captures:
                         raise Untranslatable("enter and leave capture different variables")
                     caps = callee.captures
-            caps = caps or []
+            caps = list(caps or [])
+            # closures that call this function's own (user) callbacks: the callbacks' state is part of the closure state
+            ucb = [c for c in cbs.values() if c.callbacks]
+            if ucb:
+                if any(c.callbacks != self.spec.callbacks or c.tparams != self.spec.tparams for c in ucb) or len(ucb) != len(cbs):
+                    raise Untranslatable(f"{self.spec.lean}: closures with callbacks other than this function's")
+                caps = caps + ["cbs"]
+            cbargs = (" " + self.bargs_nofuel) if ucb else ""
             # callback state: the captured variables (a tuple, right-nested; Unit when there is none)
             st0 = "()" if not caps else "(" + ", ".join(f"v.{lname(c)}" for c in caps) + ")"
-            ecode = f"(Py.wrapE {cbs['enter'].lean})" if "enter" in cbs else "(Py.wrapE Py.noEnter)"
-            lcode = f"(Py.wrapL {cbs['leave'].lean})" if "leave" in cbs else "(Py.wrapL Py.noLeave)"
+            ecode = (f"(Py.wrapE ({cbs['enter'].lean}{cbargs}))" if ucb else f"(Py.wrapE {cbs['enter'].lean})") if "enter" in cbs else "(Py.wrapE Py.noEnter)"
+            lcode = (f"(Py.wrapL ({cbs['leave'].lean}{cbargs}))" if ucb else f"(Py.wrapL {cbs['leave'].lean})") if "leave" in cbs else "(Py.wrapL Py.noLeave)"
             rty = parse_type(cbs["leave"].ret) if "leave" in cbs else "Unit"
             n = self.bindname()
             back = ""
@@ -916,18 +943,31 @@ class FnTr:
                 rty = retarget_nodes(parse_type(callee.ret), rtxt)
                 return steps + [f"Py.bind ({callee.lean} {'fuel ' if callee.fuel else ''}{' '.join(codes)}) fun {n} =>"], n, rty
         # --- a translated function that takes a whole tree and updates it in place: `_sort_tree(tree)`
-        if f in TREE_CALLEES and len(args) == 1 and ast.unparse(args[0]) in self.spec.tree_cols:
+        if f in TREE_CALLEES and len(args) >= 1 and ast.unparse(args[0]) in self.spec.tree_cols:
             callee = by_lean_global[TREE_CALLEES[f]]
             mine = self.spec.tree_cols[ast.unparse(args[0])]
             (ctree, ccols), = callee.tree_cols.items()
             inv = {var: key for key, var in ccols.items()}
-            codes = [f"v.{lname(mine[inv[pn]])}" for pn in callee.params]
+            # the callee's column parameters are this function's columns of the tree; its other parameters are the remaining arguments, in order
+            steps, codes, rest = [], [], list(args[1:])
+            for pn in callee.params:
+                if pn in inv:
+                    if inv[pn] not in mine:
+                        raise Untranslatable(f"{self.spec.lean}: `{ast.unparse(e)}` needs column `{inv[pn]}`")
+                    codes.append(f"v.{lname(mine[inv[pn]])}")
+                elif rest:
+                    s0, c, _ = self.tr(rest.pop(0), self_want(callee, pn)); steps += s0; codes.append(c)
+                else:
+                    raise Untranslatable(f"{self.spec.lean}: `{ast.unparse(e)}` gives no value for `{pn}`")
+            if rest:
+                raise Untranslatable(f"{self.spec.lean}: too many arguments in `{ast.unparse(e)}`")
             if callee.fuel and not self.spec.fuel:
                 raise Untranslatable(f"{self.spec.lean} calls {callee.lean} which needs fuel")
             n = self.bindname()
             k = len(callee.out) + 1
             back = ", ".join(f"{lname(mine[inv[o]])} := {proj(n, j, k)}" for j, o in enumerate(callee.out))
-            return ([f"Py.bind ({callee.lean} {'fuel ' if callee.fuel else ''}{' '.join(codes)}) fun {n} => let v := {{ v with {back} }};"],
+            upd = f" let v := {{ v with {back} }};" if back else ""
+            return (steps + [f"Py.bind ({callee.lean} {'fuel ' if callee.fuel else ''}{' '.join(codes)}) fun {n} =>{upd}"],
                     proj(n, k - 1, k), parse_type(callee.ret))
         # --- a call that is, at the level of the translated data, a call of another translated function
         if f in self.spec.call_alias:
@@ -1426,6 +1466,11 @@ class FnTr:
                 ast.copy_location(nd, s); ast.fix_missing_locations(nd)
             a, b = self.stmt(asg), self.s_If(new)
             return f"(Py.seq {a}\n{b})"
+        known = self.static_truth(s.test)
+        if known is not None:
+            # the test is decided by the signature this definition instantiates: only the branch that runs is translated
+            live = s.body if known else s.orelse
+            return self.block(live) if live else None
         st, c, t = self.tr(s.test)
         cur0 = dict(self.cur)
         a = self.block(s.body)
@@ -1434,6 +1479,26 @@ class FnTr:
         self.cur = {n: (k if cur1[n] == k else None) for n, k in self.cur.items()}     # after the merge: only what both branches agree on
         return self.chain(st, f"if {self.as_bool(c, t)} then {a} v else {b} v")
 
+    def static_truth(self, test):
+        """truthiness of an optional parameter that this instantiation passes (a callback: a function object is truthy) or leaves out (None)"""
+        neg = False
+        while isinstance(test, ast.UnaryOp) and isinstance(test.op, ast.Not):
+            test, neg = test.operand, not neg
+        val = None
+        if isinstance(test, ast.Name) and test.id not in self.vars:
+            if test.id in self.spec.callbacks:
+                val = True
+            elif test.id in self.spec.absent:
+                val = False
+        elif (isinstance(test, ast.Compare) and len(test.ops) == 1 and isinstance(test.left, ast.Name) and test.left.id not in self.vars
+              and isinstance(test.comparators[0], ast.Constant) and test.comparators[0].value is None
+              and isinstance(test.ops[0], (ast.Is, ast.IsNot))):
+            if test.left.id in self.spec.callbacks:
+                val = isinstance(test.ops[0], ast.IsNot)
+            elif test.left.id in self.spec.absent:
+                val = isinstance(test.ops[0], ast.Is)
+        return None if val is None else (val != neg)
+
     def s_Return(self, s):
         if s.value is None:
             return f"(fun (v : {self.Vt}) => .ret v {'(.ok default)' if self.spec.raises else 'default'})"
@@ -1441,6 +1506,10 @@ class FnTr:
         st, c, t = self.tr(s.value, rt)
         if rt == "Frac" and t == "Int":
             c, t = self.coerce(c, t, rt), rt
+        if t == ("Option", rt) and t != rt:
+            # the source returns a variable it has just tested `is not None`: a None here is unreachable, and is an error in the typed model
+            n0 = self.bindname()
+            st, c, t = st + [f"Py.bind ({c}) fun {n0} =>"], n0, rt
         if t != rt and self.spec.raises:
             raise Untranslatable(f"{self.spec.lean}: returns {t}, declared {rt}")
         return self.chain(st, f".ret v (.ok {c})" if self.spec.raises else f".ret v {c}")
@@ -1841,7 +1910,8 @@ class FnTr:
 
 
     def translate_nested(self, outer: ast.FunctionDef) -> str:
-        """a closure: `def F(a, b)` capturing `caps`  ->  `F (s : S) (a) (b) : Option (S × R)` with S the tuple of captured variables"""
+        """a closure: `def F(a, b)` capturing `caps`  ->  `F (s : S) (a) (b) : Option (S × R)` with S the tuple of captured variables
+        (followed by the state `σ` of the enclosing function's callbacks when the closure calls them)"""
         sp = self.spec
         fdef = find_nested(outer, sp.nested)
         pnames = [a.arg for a in fdef.args.args]
@@ -1858,27 +1928,46 @@ class FnTr:
         allvars = dict(self.vars)
         allvars.update(self.extra_vars)
         fields = "\n".join(f"  {lname(k)} : {show_type(t)}" for k, t in allvars.items())
+        if sp.callbacks:
+            fields += "\n  cbs : σ"
         caps = sp.captures
-        S = "Unit" if not caps else "(" + " × ".join(show_type(self.vars[c]) for c in caps) + ")"
+        cap_t = [show_type(self.vars[c]) for c in caps] + (["σ"] if sp.callbacks else [])
+        cap_n = [lname(c) for c in caps] + (["cbs"] if sp.callbacks else [])
+        S = "Unit" if not cap_t else "(" + " × ".join(cap_t) + ")"
         ret_t = show_type(parse_type(sp.ret))
         doc = sp.doc or f"`{sp.file}::{sp.func}`, nested `{sp.nested}`"
-        lines = [f"/-- variables of {doc} -/", f"structure {sp.lean}.V where", fields,
-                 f"instance {sp.lean}.instV : Inhabited {sp.lean}.V := ⟨{{ " + ", ".join(f"{lname(k)} := default" for k in allvars) + " }⟩"]
+        tps = " ".join(f"({t} : Type)" for t in sp.tparams)
+        tpsi = " ".join(f"{{{t} : Type}} [Inhabited {t}]" for t in sp.tparams)
+        tapp = (" " + " ".join(sp.tparams)) if sp.tparams else ""
+        cbb = " ".join(b for b, _, _ in sp.callbacks.values())
+        Vt = self.Vt
+        sig = " ".join(x for x in (tpsi, cbb) if x)
+        sig = (" " + sig) if sig else ""
+        allnames = [lname(k) for k in allvars] + (["cbs"] if sp.callbacks else [])
+        lines = [f"/-- variables of {doc} -/", f"structure {sp.lean}.V{(' ' + tps) if tps else ''} where", fields,
+                 f"instance {sp.lean}.instV{(' ' + tpsi) if tpsi else ''} : Inhabited {Vt} := ⟨{{ " + ", ".join(f"{k} := default" for k in allnames) + " }⟩"]
         for nm, ty, code in self.aux:
-            lines.append(f"def {nm} : {ty} :=\n" + textwrap.indent(code, "  "))
-        lines.append(f"def {sp.lean}.body : {sp.lean}.V → Py.Res {sp.lean}.V {ret_t} :=\n" + textwrap.indent(body, "  "))
+            b = self.binders_for(code)
+            lines.append(f"def {nm}{(' ' + b) if b else ''} : {ty} :=\n" + textwrap.indent(code, "  "))
+        lines.append(f"def {sp.lean}.body{sig} : {Vt} → Py.Res {Vt} {ret_t} :=\n" + textwrap.indent(body, "  "))
         params = " ".join(f"({lname(p)} : {show_type(self.vars[p])})" for p in sp.params)
-        init = ", ".join([f"{lname(p)} := {lname(p)}" for p in sp.params] + [f"{lname(c)} := {proj('s', k, len(caps))}" for k, c in enumerate(caps)])
-        out_s = "()" if not caps else "(" + ", ".join(f"r.1.{lname(c)}" for c in caps) + ")"
+        init = ", ".join([f"{lname(p)} := {lname(p)}" for p in sp.params] + [f"{c} := {proj('s', k, len(cap_n))}" for k, c in enumerate(cap_n)])
+        out_s = "()" if not cap_n else "(" + ", ".join(f"r.1.{c}" for c in cap_n) + ")"
+        cba = (" " + self.bargs_nofuel) if self.bargs_nofuel else ""
         lines.append(f"/-- {doc}: the closure as a state-passing function over its captured variables (`none` = it raised) -/")
-        lines.append(f"def {sp.lean} (s : {S}) {params} : Option ({S} × {ret_t}) :=")
-        lines.append(f"  (Py.finish default ({sp.lean}.body {{ (default : {sp.lean}.V) with {init} }})).map fun r => ({out_s}, r.2)")
+        lines.append(f"def {sp.lean}{sig} (s : {S}) {params} : Option ({S} × {ret_t}) :=")
+        lines.append(f"  (Py.finish default ({sp.lean}.body{cba} {{ (default : {Vt}) with {init} }})).map fun r => ({out_s}, r.2)")
         return "\n".join(lines) + "\n"
 
 STRUCT_CTORS = {}
 NODE_METHODS = {}       # method name of `Tree.Node` -> lean name of its translation (filled by `spec(node_method=...)`)
 TREE_CALLEES = {}       # python callee text of a function taking (and updating) a whole tree -> lean name
 TREE_METHODS = {}       # method name of `Tree` / `SWCLike` -> lean name of its translation as a function of the tree's columns (`spec(tree_method=...)`)
+
+
+def self_want(callee, pn):
+    """declared type of a callee's parameter (the expected type of the argument: an empty list literal needs it)"""
+    return parse_type(callee.vars[pn]) if pn in callee.vars else None
 
 
 def retarget_nodes(t, T):
@@ -1903,6 +1992,39 @@ def find_def(tree: ast.Module, cls, func):
     if not cands:
         raise Untranslatable(f"function {func} not found")
     return cands[-1]          # the implementation follows its @overload stubs
+
+
+def imported_const(module: str, name: str, cache: dict, depth: int = 4):
+    """the integer a module-level name of `module` (a module of the library under REPO) is bound to: a literal assignment there, or the same
+    name re-exported from another module (`from .subtree import *`, `from x import NAME`); None when it is anything else"""
+    if depth == 0:
+        return None
+    base = REPO / Path(*module.split("."))
+    p = base.with_suffix(".py") if base.with_suffix(".py").exists() else base / "__init__.py"
+    if not p.exists():
+        return None
+    if p not in cache:
+        try:
+            cache[p] = ast.parse(p.read_text())
+        except SyntaxError:
+            return None
+    found = None
+    for nd in cache[p].body:
+        if isinstance(nd, ast.Assign) and len(nd.targets) == 1 and isinstance(nd.targets[0], ast.Name) and nd.targets[0].id == name:
+            try:
+                val = ast.literal_eval(nd.value)
+            except (ValueError, SyntaxError):
+                return None
+            found = val if isinstance(val, int) and not isinstance(val, bool) else None
+        elif isinstance(nd, ast.ImportFrom) and nd.module and any(al.name in ("*", name) and al.asname is None for al in nd.names):
+            pkg = module.split(".") if p.name == "__init__.py" else module.split(".")[:-1]
+            src = ".".join(pkg[:len(pkg) - (nd.level - 1)] + nd.module.split(".")) if nd.level else nd.module
+            if src.split(".")[0] != module.split(".")[0]:
+                continue
+            val = imported_const(src, name, cache, depth - 1)
+            if val is not None:
+                found = val
+    return found
 
 
 def find_nested(fdef: ast.FunctionDef, name: str) -> ast.FunctionDef:
@@ -2177,6 +2299,13 @@ def regenerate(modules=None):
                             continue
                         if isinstance(val, int) and not isinstance(val, bool):
                             tr.consts[nd.targets[0].id] = val
+                    elif isinstance(nd, ast.ImportFrom) and nd.level == 0 and nd.module:
+                        # integer constants imported by name from another module of the library (`from swcgeom.core.swc_utils import REMOVAL`)
+                        for al in nd.names:
+                            if al.name != "*" and (al.asname or al.name) not in tr.consts:
+                                val = imported_const(nd.module, al.name, cache)
+                                if val is not None:
+                                    tr.consts[al.asname or al.name] = val
                 out.append(tr.translate(fdef))
             except Untranslatable as e:
                 fails.append(f"translate_algo: {sp.file}::{sp.func}: {e}")
